@@ -460,7 +460,7 @@ func (ks *KeyStore) expire(addr common.Address, u *unlocked, timeout time.Durati
 	case <-u.abort:
 		// just quit
 	case <-t.C:
-		verifExpire(addr, u)
+		verifExpire(addr, u, 1)
 		ks.mu.Lock()
 		// only drop if it's still the same key instance that dropLater
 		// was launched with. we can check that using pointer equality
@@ -471,6 +471,7 @@ func (ks *KeyStore) expire(addr common.Address, u *unlocked, timeout time.Durati
 			delete(ks.unlocked, addr)
 		}
 		ks.mu.Unlock()
+		verifExpire(addr, u, 2)
 	}
 }
 
